@@ -8,13 +8,25 @@ import (
 )
 
 func insideC18(root, p string) bool {
-	if p == root {
+	// lexically: below (or equal to) the root, with no parent reference in
+	// the remainder (the file system would resolve "root/.." outside)
+	if rt.EqStr(p, root) {
 		return true
 	}
 	if len(p) <= len(root) {
 		return false
 	}
-	return rt.All(rt.EqStr(p[:len(root)], root), p[len(root)] == '/')
+	ok := rt.All(rt.EqStr(p[:len(root)], root), p[len(root)] == '/')
+	rest := p[len(root):]
+	for i := 0; i+3 <= len(rest); i++ {
+		// a segment that is exactly ".."
+		end := true
+		if i+3 < len(rest) {
+			end = rest[i+3] == '/'
+		}
+		ok = rt.All(ok, !rt.All(rest[i] == '/', rest[i+1] == '.', rest[i+2] == '.', end))
+	}
+	return ok
 }
 
 func VerifC18_DirStructure() {
